@@ -58,6 +58,7 @@ theorem step_unwinding (L : Low) (a b : RngState) (op : Op) (h : Agree L a b) (o
       · simp [hin]
       · simp only [hin, if_false] at hi ⊢
         exact hs i hi
+  | setOptions o => exact ⟨rfl, hg, hn, hs⟩
   | envReset n =>
     simp only [step, lowStep]
     refine ⟨trivial, ?_, ?_, ?_⟩
@@ -133,8 +134,8 @@ theorem run_unwinding (t : List Op) : ∀ (L : Low) (a b : RngState), Agree L a 
 /-! ### Completeness: a draw the analysis rejects really depends on the ambient state -/
 
 /-- two ambient states that differ everywhere -/
-def ambA : RngState := ⟨fun _ => ⟨.ambient 0, 0⟩, fun _ => some 0⟩
-def ambB : RngState := ⟨fun _ => ⟨.ambient 1, 0⟩, fun _ => some 1⟩
+def ambA : RngState := ⟨fun _ => ⟨.ambient 0, 0⟩, fun _ => some 0, fun _ => none⟩
+def ambB : RngState := ⟨fun _ => ⟨.ambient 1, 0⟩, fun _ => some 1, fun _ => none⟩
 
 /-- along any trace started in `ambA` / `ambB`, whatever the analysis does not mark differs -/
 def Differ (L : Low) (a b : RngState) : Prop :=
@@ -187,6 +188,7 @@ theorem step_differ (L : Low) (a b : RngState) (op : Op) (h : Differ L a b) :
       · simp [hin] at hi
       · simp only [hin, if_false] at hi ⊢
         exact hn i hi
+  | setOptions o => exact ⟨hg, hp, hn⟩
   | envReset n =>
     simp only [step, lowStep]
     refine ⟨?_, ?_, ?_⟩
@@ -250,6 +252,7 @@ theorem step_out_length (a b : RngState) (op : Op) : (step a op).2.length = (ste
   | seed g s => by_cases h : g = .os <;> simp [step, h]
   | reset g => by_cases h : g = .os <;> simp [step, h]
   | envSeed s n => rfl
+  | setOptions o => rfl
   | envReset n => rfl
   | draw g k => rfl
   | discard g k => rfl
@@ -276,6 +279,7 @@ theorem run_differ (t : List Op) : ∀ (L : Low) (a b : RngState), Differ L a b 
       | seed g s => simp [opOK] at hok
       | reset g => simp [opOK] at hok
       | envSeed s n => simp [opOK] at hok
+      | setOptions o => simp [opOK] at hok
       | envReset n => simp [opOK] at hok
       | discard g k => simp [opOK] at hok
 
@@ -387,6 +391,7 @@ theorem fine_ok (cfg : Cfg) (L : Low) (hL : Good cfg L) (t : List Op) (h : t.all
     | seed g s => simp [fineOp] at h1
     | reset g => simp [fineOp] at h1
     | envSeed s n => simp [fineOp] at h1
+    | setOptions o => simp [fineOp] at h1
     | envReset n => simp [fineOp] at h1
 
 theorem construct_ok (cfg : Cfg) :
@@ -523,7 +528,8 @@ def FromSeed (cfg : Cfg) (d : Draw) : Prop :=
   inFamily cfg d.gen = true ∧ d.origin = famOrigin cfg d.gen
 
 def SeededInv (cfg : Cfg) (st : RngState) : Prop :=
-  (∀ g, inFamily cfg g = true → (st.gens g).origin = famOrigin cfg g) ∧ (∀ i, i < cfg.nEnvs → st.pending i = none)
+  (∀ g, inFamily cfg g = true → (st.gens g).origin = famOrigin cfg g) ∧ (∀ i, i < cfg.nEnvs → st.pending i = none) ∧
+  (∀ i, i < cfg.nEnvs → st.options i = none)
 
 def PreInv (cfg : Cfg) (st : RngState) : Prop :=
   (st.gens .py).origin = .seed cfg.seed ∧ (st.gens .np).origin = .seed cfg.seed ∧
@@ -570,6 +576,7 @@ theorem fine_run (cfg : Cfg) (t : List Op) : ∀ (st : RngState), SeededInv cfg 
     | seed g s => simp [fineOp] at h1
     | reset g => simp [fineOp] at h1
     | envSeed s n => simp [fineOp] at h1
+    | setOptions o => simp [fineOp] at h1
     | envReset n => simp [fineOp] at h1
 
 theorem construct_run (cfg : Cfg) (st : RngState) :
@@ -609,7 +616,7 @@ theorem reset_step_pre (cfg : Cfg) (st : RngState) (h : PreInv cfg st)
     (hN : inFamily cfg .noise = true → (st.gens .noise).origin = .const) :
     SeededInv cfg (step st (.envReset cfg.nEnvs)).1 := by
   obtain ⟨h1, h2, h3, h4, h5⟩ := h
-  refine ⟨?_, ?_⟩
+  refine ⟨?_, ?_, ?_⟩
   · intro g hg
     cases g with
     | env i =>
@@ -624,16 +631,18 @@ theorem reset_step_pre (cfg : Cfg) (st : RngState) (h : PreInv cfg st)
     | noise => simpa [step, deliver, famOrigin] using hN hg
   · intro i hi
     simp [step, hi]
+  · intro i hi
+    simp [step, hi]
 
 theorem reset_step_good (cfg : Cfg) (st : RngState) (h : SeededInv cfg st) :
     SeededInv cfg (step st (.envReset cfg.nEnvs)).1 := by
   obtain ⟨h1, h2⟩ := h
-  refine ⟨?_, ?_⟩
+  refine ⟨?_, ?_, ?_⟩
   · intro g hg
     cases g with
     | env i =>
       have hi : i < cfg.nEnvs := by simpa [inFamily] using hg
-      simp only [step, deliver, hi, if_true, h2 i hi]
+      simp only [step, deliver, hi, if_true, h2.1 i hi]
       exact h1 _ hg
     | py => simpa [step, deliver] using h1 _ hg
     | np => simpa [step, deliver] using h1 _ hg
@@ -644,6 +653,8 @@ theorem reset_step_good (cfg : Cfg) (st : RngState) (h : SeededInv cfg st) :
     | noise => simpa [step, deliver] using h1 _ hg
   · intro i hi
     simp [step, hi]
+  · intro i hi
+    simp [step, hi]
 
 /-- number of `env.reset()` calls of later `learn()` calls among the events -/
 def resetCount : List Ev → Nat
@@ -651,23 +662,31 @@ def resetCount : List Ev → Nat
   | .reset _ :: es => resetCount es + 1
   | _ :: es => resetCount es
 
-theorem map_pending_none (st : RngState) (n : Nat) (h : ∀ i, i < n → st.pending i = none) :
-    (List.range n).map st.pending = List.replicate n none := by
+theorem map_pending_none (st : RngState) (n : Nat) (h : ∀ i, i < n → st.pending i = none)
+    (h' : ∀ i, i < n → st.options i = none) :
+    (List.range n).map (fun i => (st.pending i, st.options i)) = List.replicate n (none, none) := by
   apply List.ext_getElem
   · simp
   · intro i h1 h2
     simp only [List.getElem_map, List.getElem_range, List.getElem_replicate]
-    exact h i (by simpa using h1)
+    rw [h i (by simpa using h1), h' i (by simpa using h1)]
 
 theorem map_pending_some (st : RngState) (n s : Nat) (h : ∀ i, i < n → st.pending i = some (s + i)) :
-    (List.range n).map st.pending = (List.range n).map (fun i => some (s + i)) := by
+    (List.range n).map (fun i => (st.pending i, st.options i)) =
+      (List.range n).map (fun i => (some (s + i), st.options i)) := by
   apply List.map_congr_left
   intro i hi
-  exact h i (by simpa using hi)
+  rw [h i (by simpa using hi)]
+
+theorem construct_options (cfg : Cfg) (st : RngState) : (run (construct cfg) st).1.options = st.options := by
+  cases hc : cfg.cnn <;> simp [construct, hc, run, step, RngState.setGen, RngState.advance]
+
+theorem learnStart_options (cfg : Cfg) (st : RngState) : (run (learnStartOps cfg) st).1.options = st.options := by
+  cases hn : cfg.noise <;> simp [learnStartOps, hn, run, step, RngState.setGen]
 
 theorem seg_run (cfg : Cfg) (st : RngState) (hst : SeededInv cfg st) (e : Ev) :
     SeededInv cfg (run (segOps cfg e) st).1 ∧ (∀ d, d ∈ (run (segOps cfg e) st).2 → FromSeed cfg d) ∧
-    deliveries (segOps cfg e) st = List.replicate (resetCount [e]) (List.replicate cfg.nEnvs none) := by
+    deliveries (segOps cfg e) st = List.replicate (resetCount [e]) (List.replicate cfg.nEnvs (none, none)) := by
   cases e with
   | learnStart =>
     obtain ⟨n1, n2⟩ := learnStart_run_nil cfg st
@@ -686,7 +705,7 @@ theorem seg_run (cfg : Cfg) (st : RngState) (hst : SeededInv cfg st) (e : Ev) :
       rw [this, List.nil_append] at hd
       exact i2 d hd
     · simp only [segOps, List.cons_append, List.nil_append, deliveries, i3, resetCount]
-      simp [map_pending_none st cfg.nEnvs hst.2, List.replicate]
+      simp [map_pending_none st cfg.nEnvs hst.2.1 hst.2.2, List.replicate]
   | rolloutStart =>
     have := fine_run cfg _ st hst (segTail_fine cfg .rolloutStart)
     simpa [segTail, resetCount] using this
@@ -708,7 +727,7 @@ theorem resetCount_cons (e : Ev) (es : List Ev) : resetCount (e :: es) = resetCo
 
 theorem events_run (cfg : Cfg) (evs : List Ev) : ∀ (st : RngState), SeededInv cfg st →
     SeededInv cfg (run (eventsOps cfg evs) st).1 ∧ (∀ d, d ∈ (run (eventsOps cfg evs) st).2 → FromSeed cfg d) ∧
-    deliveries (eventsOps cfg evs) st = List.replicate (resetCount evs) (List.replicate cfg.nEnvs none) := by
+    deliveries (eventsOps cfg evs) st = List.replicate (resetCount evs) (List.replicate cfg.nEnvs (none, none)) := by
   induction evs with
   | nil => intro st h; exact ⟨h, by simp [eventsOps, run], rfl⟩
   | cons e es ih =>
@@ -727,8 +746,8 @@ theorem libTrace_run (cfg : Cfg) (ds : List Nat) (evs : List Ev) (st : RngState)
     SeededInv cfg (run (libTrace cfg ds evs) st).1 ∧
     (∀ d, d ∈ (run (libTrace cfg ds evs) st).2 → FromSeed cfg d) ∧
     deliveries (libTrace cfg ds evs) st =
-      (List.range cfg.nEnvs).map (fun i => some (cfg.seed + i)) ::
-        List.replicate (resetCount evs) (List.replicate cfg.nEnvs none) := by
+      (List.range cfg.nEnvs).map (fun i => (some (cfg.seed + i), st.options i)) ::
+        List.replicate (resetCount evs) (List.replicate cfg.nEnvs (none, none)) := by
   obtain ⟨c1, c2, c3⟩ := construct_run cfg st
   obtain ⟨l1, l2⟩ := learnStart_run_pre cfg _ c1
   obtain ⟨n1, n2⟩ := learnStart_run_nil cfg (run (construct cfg) st).1
@@ -739,10 +758,10 @@ theorem libTrace_run (cfg : Cfg) (ds : List Nat) (evs : List Ev) (st : RngState)
         (step (run (learnStartOps cfg) (run (construct cfg) st).1).1 (.envReset cfg.nEnvs)).1 := by
     simp [firstLearn, run_append, n1, segOps, run, step]
   have hdel : deliveries (firstLearn cfg ds) (run (construct cfg) st).1 =
-      [(List.range cfg.nEnvs).map (fun i => some (cfg.seed + i))] := by
+      [(List.range cfg.nEnvs).map (fun i => (some (cfg.seed + i), st.options i))] := by
     simp only [firstLearn, deliveries_append, n2, List.nil_append, segOps, List.cons_append, deliveries, r3,
       List.append_nil]
-    rw [map_pending_some _ cfg.nEnvs cfg.seed l1.2.2.2.2]
+    rw [map_pending_some _ cfg.nEnvs cfg.seed l1.2.2.2.2, learnStart_options, construct_options]
   have r1' := r1
   rw [← hres] at r1'
   obtain ⟨e1, e2, e3⟩ := events_run cfg evs _ r1'
@@ -764,6 +783,7 @@ def famOp (cfg : Cfg) : Op → Bool
   | .seed g _ => inFamily cfg g
   | .reset g => inFamily cfg g
   | .envSeed _ _ => true
+  | .setOptions _ => true
   | .envReset n => decide (n ≤ cfg.nEnvs)
   | .draw _ _ => true
   | .discard _ _ => true
@@ -798,6 +818,7 @@ theorem outside_stays (cfg : Cfg) (t : List Op) : ∀ (L : Low), t.all (famOp cf
         · subst e; rw [h1] at hg; cases hg
         · simp only [e, if_false]; exact h g hg
     | envSeed s n => simpa [lowStep] using h g hg
+    | setOptions o => simpa [lowStep] using h g hg
     | envReset n =>
       simp only [famOp, decide_eq_true_eq] at h1
       cases g with
